@@ -635,7 +635,7 @@ pub fn finish(ctx: &Ctx) -> i32 {
     crate::engine::finish(
         ctx,
         Finish {
-            rule: "cases: a byte buffer of length 0-64 (in `wide-scripts` also 100-9000 bytes with 0-3 NULs, and words(n) with n up to usize::MAX) (any length, NULs, invalid UTF-8) and a script of 1-30 requests over word/words(n)/bit32/bit64/id/ext_inst_integer/string/each of the 56 typed requests/set_limit (0,1,2,remaining±1,2^20,usize::MAX/4,usize::MAX)/clear_limit, with offset/has_limit/limit_reached queried after every step. Oracle: model R5 (offset, allowance) over the buffer: success required when buffer and limit allow, returned value = little-endian words / string up to first NUL / declared enumeration value, offset advanced 4 bytes per word and never beyond the buffer, failed raw word leaves and reports the offset, allowance never exceeded. non-trivial = script with a set_limit, a string request and a request straddling a limit or the buffer end; distinct = hash of the rendered script.",
+            rule: "cases: a byte buffer of length 0-64 (in `wide-scripts` also 100-9000 bytes with 0-3 NULs, and words(n) with n up to usize::MAX) (any length, NULs, invalid UTF-8) and a script of 1-30 requests over word/words(n)/bit32/bit64/id/ext_inst_integer/string/each of the 56 typed requests/set_limit (0,1,2,remaining±1,2^20,usize::MAX/4,usize::MAX)/clear_limit, with offset/has_limit/limit_reached queried after every step. Oracle: model R5 (offset, allowance) over the buffer: success required when buffer and limit allow, returned value = little-endian words / string up to first NUL / declared enumeration value, offset advanced 4 bytes per word and never beyond the buffer, failed raw word leaves and reports the offset, allowance never exceeded. non-trivial = script with a set_limit, a string request and a request straddling a limit or the buffer end; distinct = hash of the rendered script. Added in rounds 18-19: text-strings (byte order mark, noncharacters, separators ...); buffers at addresses 0..3 mod 4.",
             assumptions: vec![
                 "left open by the statement and re-synchronised from the implementation: offset and remaining allowance after a failed multi-word/typed/string request; which error a typed request reports at an exhausted limit".into(),
             ],
